@@ -107,7 +107,8 @@ def make_real_strategy(name, opts):
     return st
 
 
-def play_real(name, opts, kind, data, decider, abort_cls=RuntimeError, fail_at=None, max_tests=400, cut=None, touch=None):
+def play_real(name, opts, kind, data, decider, abort_cls=RuntimeError, fail_at=None, max_tests=400, cut=None, touch=None,
+              vanish=False):
     """one run() of a real strategy on a real file under `decider(k, disk)`.
     fail_at=j makes the j-th rmslice() call raise (an internal strategy failure).
     Returns (Observed, orig_fields, run-as-script)"""
@@ -119,6 +120,9 @@ def play_real(name, opts, kind, data, decider, abort_cls=RuntimeError, fail_at=N
             if k >= max_tests:
                 return "x"
             out = decider(k, disk)
+            if vanish and out == "x":
+                # the tool under test moved its input away (a staging directory) and was interrupted before moving it back
+                s.path.rename(s.path.with_name("staged-" + s.path.name))
             if touch is not None and out != "x" and touch(k):
                 # the program under test rewrites its input in place (a formatter, a tool that normalises line ends)
                 s.path.write_bytes(disk + b"\n// rewritten by the tool under test\n")
